@@ -18,6 +18,7 @@ package interfaces
 //@ iface interfaces.BlockUtils.ValidateBlockCommitment
 //@   pure
 //@   ensures result == Commits(self, blockHeight, block, blockHash)
+//@   ensures result ==> block != nil && block.Height() == blockHeight
 
 // A-SPI: the committee is a function of the request; its total weight fits 64 bits (the domain of C06).
 //@ iface interfaces.Membership.RequestCommitteeForBlockProof
